@@ -195,8 +195,14 @@ class C20(Prop):
                 kw = '(struct ('
             mode = 'attr' if k % 2 else 'derive'
             tl = [(t, None) for t in traits]
-            req = sx.inv_attr(sx.dx(tl), it) if mode == 'attr' else sx.inv_derive(
-                kw + sx.a_derive_ex(sx.dx(tl)) + ' ' + it[len(kw):])
+            # a shared `bound(.., <true predicate>)`: `..` keeps every default bound wherever it stands in the list
+            sb = None
+            if rng.random() < 0.25:
+                triv = sx.b_pred(sx.wty(sx.tid('u8'), [sx.tb_trait(['Copy'])]))
+                sb = rng.choice([[sx.B_DOTS, triv], [triv, sx.B_DOTS], [sx.B_DOTS]])
+                attrs_used.add('shared-bound-dots-first' if sb[0] == sx.B_DOTS and len(sb) > 1 else 'shared-bound-dots')
+            req = sx.inv_attr(sx.dx(tl, bnd=sb), it) if mode == 'attr' else sx.inv_derive(
+                kw + sx.a_derive_ex(sx.dx(tl, bnd=sb)) + ' ' + it[len(kw):])
             feats = ['enum%d' % nvar if is_enum else 'struct', mode] + ['tr-' + t for t in traits] + sorted(attrs_used) + \
                     ['gen-' + x for x in sorted(needs)] + (['where-Self'] if self_where else [])
             out.append((req, dict(features=tuple(sorted(set(feats))), traits=traits,
